@@ -3,14 +3,74 @@ from .. import workload
 from .common import grid_check
 
 
+def diameter_chain_job(texts, which, values, tag):
+    """Runs one input with only a well diameter enlarged step by step; the frictional pressure loss of that well (the series the
+    run itself reports) must not increase from one step to the next."""
+    from .. import jobs
+    from ..verdict import Mon
+    import numpy as np
+    mon = Mon('C15')
+    outs = jobs.multi_run(texts)
+    key = 'DPProdWell' if which == 'Production Well Diameter' else 'DPInjWell'
+    prev = None
+    for v, o in zip(values, outs):
+        ser = o.get(key) if o.get('ok') else None
+        if not ser:
+            prev = None
+            continue
+        ser = np.asarray(ser, dtype=float)
+        if prev is not None and len(prev[1]) == len(ser):
+            worst = float(np.max(ser - prev[1]))
+            mon.check('run:friction-monotone-in-diameter', worst <= 1e-9 * max(1.0, float(np.max(np.abs(prev[1])))),
+                      mechanism='C15/run-pressure-loss-increases-with-well-diameter:' + key, smaller=prev[0], larger=v,
+                      increase_kPa=worst, tag=tag)
+        prev = (v, ser)
+    return {'mon': mon.dump(), 'n': len(texts)}
+
+
 def run(ctx):
+    from .. import gen
+    from ..pool import Pool
+    # run-level diameter chains (both wells, both hydraulic models, also under district heating where the wellbore model runs
+    # twice per simulation): the whole admitted range 1..30 inch
+    cjobs = []
+    values = [3, 6, 9, 14, 18, 21, 24, 30]
+    for i in range(ctx.pick(16, 120)):
+        dh = i % 3 == 0
+        cell = (ctx.rng.choice([1, 2, 3]), 2, 7, 4) if dh else (ctx.rng.choice([1, 2, 3]), ctx.rng.choice([1, 2, 31]), 1, ctx.rng.choice([3, 4]))
+        if not dh and cell[1] == 2:
+            cell = (cell[0], 2, 9, cell[3])
+        base = gen.synth_case(ctx.rng, cell, costs=False, incentives=False, prices=False, addons=False, overpressure=False, sdac=False,
+                              impedance=(i % 2 == 0))
+        if dh:
+            gen.cset(base, 'Plant Lifetime', 8)
+        which = ('Production Well Diameter', 'Injection Well Diameter')[(i // 2) % 2]
+        if i % 2 != 0:
+            # productivity / injectivity index model: the production-side figure the run reports is the pump's pressure
+            # difference (pump depth and suction pressure move with the diameter too), not a frictional loss; the injection-side
+            # figure differs between two diameters by the friction term only
+            which = 'Injection Well Diameter'
+        texts = []
+        for v in values:
+            c = [list(kv) for kv in base]
+            gen.cset(c, which, v)
+            texts.append(gen.render(c))
+        cjobs.append({'fn': 'gxv.props.c15:diameter_chain_job', 'timeout': 900,
+                      'args': {'texts': texts, 'which': which, 'values': values, 'tag': {'cell': list(cell), 'impedance': i % 2 == 0}}})
+    with Pool(16) as pool:
+        for r in pool.map(cjobs, timeout=900):
+            if r.status != 'ok':
+                ctx.job_inconclusive(r.detail)
+                continue
+            ctx.evaluations += r.value['n']
+            ctx.mon.merge(r.value['mon'], case={'job_fn': r.job['fn'], 'args': r.job['args']})
     extra = workload.synth_jobs(ctx, ['c15'], ctx.pick(250, 3000), res_models=(3, 4), overpressure=True, addons=False,
                                 costs=False, incentives=False, prices=False)
     grid_check(ctx, 'c15', nontrivial_note='c15-nontrivial', also=('c02',), quick_fast=600, quick_slow=32,
                extra_jobs=extra,
                required={'pumping-nonnegative': 600, 'pumping-total-is-sum': 200, 'production-pressure': 60,
                          'production-pressure-rate': 30, 'injection-pressure': 30,
-                         'contract:friction-monotone-in-diameter': 600, 'contract:production-pressure': 30,
+                         'contract:friction-monotone-in-diameter': 600, 'run:friction-monotone-in-diameter': 60, 'contract:production-pressure': 30,
                          'contract:injection-pressure': 30},
                rule='grid walk (see C01) under both hydraulic models (impedance / productivity-injectivity index), pumped ORC '
                     'and self-flowing flash plants, plus an overpressure family (100..250 %, depletion 0.2..20 %/yr, '
@@ -21,4 +81,12 @@ def run(ctx):
 
 
 def replay(ctx, payload):
+    case = payload.get('case') or {}
+    if case.get('job_fn') == 'gxv.props.c15:diameter_chain_job':
+        v = diameter_chain_job(**case['args'])
+        ctx.mon.merge(v['mon'])
+        ctx.evaluations = v['n']
+        for vv in ctx.mon.viols[:10]:
+            print('replayed violation:', vv['mechanism'], str(vv['witness'])[:300])
+        return 1 if ctx.mon.viols else 0
     return workload.replay_run_oracles(ctx, payload)
